@@ -13,9 +13,14 @@ Binding:
        on the constant family and on smooth state-dependent SDEs, aligned and unaligned layouts;
  (ii)  constant-family gradients vs TLC's rationals at 1e-12; tensors not asked for receive no gradient; the unused
        parameter receives none / zero;
+ (ii') time-dependent family f == a (1+t), g == b (1+t) (times offset by 2 so that t and -t differ grossly), every
+       accepted (sde_type, noise_type, method, adjoint_method): dL/dy0 exact; dL/da, dL/db within the quadrature
+       budget TLC derives (AdjointDriver!LinStep: nodes of a consistent solver lie inside each step);
  (iii) every real forward+backward pass recorded as a trace (BaseSDESolver.integrate wrapper + Brownian proxy) and
        validated by TLC against AdjointDriver (TraceAdjoint: NotStuck, POSTCONDITION AllAccepted);
- (iv)  exploration only: e(dt) = RMS(adjoint gradient - backprop gradient), 256 paths, fixed Brownian path:
+ (iv)  exploration only, over every accepted combo (quick: every (sde_type, noise_type, adjoint_method) and every
+       default pair) on an SDE whose drift and diffusion depend on y and, non-evenly, on t:
+       e(dt) = RMS(adjoint gradient - backprop gradient), 256 paths, fixed Brownian path:
        e(dt/16) < e(dt/4) < e(dt) and e(dt/16) <= e(dt)/2; only "no decrease at all" is a violation.
 """
 import math
@@ -46,6 +51,7 @@ def run_tlc(ctx):
     reqs = "{1, 2, 3, 4, 5, 6, 7, 8, 9, 10}"
     root = "---- MODULE ADRun ----\nEXTENDS AdjointDriver\nLayoutsDef == %s\n====\n" % _lit(layouts)
     invs = ["InjectOrder", "SameNoise", "BothTile", "SegmentCalls", "OnlyRequested", "ExtrasOnlyForPair", "ClosedForm",
+            "LinearFamily",
             "Export", "ExportAccepted"]
     cfg = ("SPECIFICATION Spec\nCONSTANTS\n  Layouts <- LayoutsDef\n  ReqPatterns = %s\n"
            "  PairClasses = {\"revheun\", \"rh_other\", \"other\"}\n" % reqs
@@ -175,6 +181,73 @@ def const_case(ctx, p, idx, combo, traces, corrupt=None):
                        key=key, info=dict(D=D, ts=tst, wset=s["wset"])))
 
 
+def lintime_case(ctx, p, idx, combo, traces, corrupt=None):
+    """(ii') f == a (1+t), g == b (1+t) on the scenario p (all tensors requested): the real gradients must lie
+    within TLC's quadrature budget of TLC's midpoint-node values."""
+    s = p["scn"]
+    ty, noise, method, am = combo[:4]
+    D, tst = s["D"], s["ts"]
+    toff, tden = p["toff"], p["tickden"]
+    assert abs(1.0 / tden - TICK) == 0.0
+    b, d, m = _sizes(idx + 1, noise)
+    gen = torch.Generator().manual_seed((ctx.seed * 8191 + idx * 37 + 11) % (2 ** 31))
+    V, U = _dy(gen, b, d), _dy(gen, b, m)
+    inc = [float(H.frac(x)) for x in p["inc"]]
+    bm = H.GridBrownian(toff * TICK, TICK, torch.stack([r * U for r in inc]), levy=_levy_for(method))
+    a0 = _dy(gen, d)
+    b0 = _dy(gen, d) if noise == "diagonal" else _dy(gen, d, m)
+    sde = H.LinTimeSDE(noise, ty, d, m, a0, b0)
+    y0 = _dy(gen, b, d).requires_grad_()
+    ts = torch.tensor([(t + toff) * TICK for t in tst], dtype=F64)
+    w = torch.tensor([float(H.frac(x)) for x in s["w"]], dtype=F64)
+    loss_fn = lambda ys: (ys * V * w[:, None, None]).sum()
+    key = dict(part="lintime", sde_type=ty, noise=noise, method=method, adjoint_method=am)
+    try:
+        ys, grads, events, _ = H.traced_adjoint_run(sde, y0, ts, bm, D * TICK, method, am, loss_fn,
+                                                    [y0, sde.a, sde.b, sde.u], TICK, V=V, tick_offset=toff)
+    except Exception as e:
+        H.violation_once(ctx, dict(key, clause="accepted_runs"),
+                         f"accepted configuration raised {type(e).__name__}: {str(e)[:200]} (D={D}, ts={tst})",
+                         replay=dict(scn=s, combo=combo, seed=ctx.seed, idx=idx))
+        return
+    with H.quiet(), torch.no_grad():
+        ys2 = torchsde.sdeint(sde, y0, ts, bm=bm, method=method, dt=D * TICK)
+    if not torch.equal(ys.detach(), ys2):
+        H.violation_once(ctx, dict(key, clause="forward_equal"),
+                         f"sdeint_adjoint outputs differ from sdeint outputs; D={D} ts={tst}",
+                         replay=dict(scn=s, combo=combo, seed=ctx.seed, idx=idx))
+    lin = {k: float(H.frac(v)) for k, v in p["lin"].items()}
+    if corrupt == "time":                      # harness self-check: an oracle shifted beyond its own budget
+        lin["gb"] = lin["gb"] + 2.0 * lin["eb"] + 1.0
+    lam = float(H.frac(p["lam"]))
+    Vs = V.sum(0)
+    VU = (V * U).sum(0) if noise == "diagonal" else V.T @ U
+    gy, ga_, gb_, gu = [None if g is None else g.detach() for g in grads]
+    checks = [("y0", gy, lam * V, torch.zeros_like(V)),
+              ("a", ga_, lin["ga"] * Vs, lin["ea"] * Vs.abs()),
+              ("b", gb_, lin["gb"] * VU, lin["eb"] * VU.abs())]
+    worst = 0.0
+    for name, g, mid, budget in checks:
+        if g is None:
+            g = torch.zeros_like(mid)
+        scale = max(float(mid.abs().max()), float(V.abs().max()) * TICK)
+        excess = float(((g - mid).abs() - budget).max())
+        worst = max(worst, excess / scale)
+        if excess > TOL * scale:
+            H.violation_once(ctx, dict(key, clause="time_dependent_family", slot=name),
+                             f"dL/d{name} = {g.tolist()} is outside [midpoint value +- quadrature budget] = "
+                             f"{mid.tolist()} +- {budget.tolist()} derived by TLC for f = a(1+t), g = b(1+t), times "
+                             f"{[float(x) for x in ts]} (D={D}, ts={tst}, w={s['w']}): no placement of the solver's "
+                             f"nodes inside its steps explains it (a field evaluated at a wrong time?)",
+                             replay=dict(scn=s, combo=combo, seed=ctx.seed, idx=idx))
+    if gu is not None and bool((gu != 0).any()):
+        H.violation_once(ctx, dict(key, clause="unused_param"), "the unused parameter received a non-zero gradient")
+    ctx.case(("lintime", ty, noise, method, am, D, tuple(tst), tuple(s["wset"])),
+             sample=dict(key, D=D, ts=tst, wset=s["wset"], worst_excess=worst), trace=True)
+    traces.append(dict(scn=H.trace_scn(D, tst, set(s["wset"]), s["pair"]), ev=events, key=key,
+                       info=dict(D=D, ts=tst, wset=s["wset"])))
+
+
 def smooth_forward_case(ctx, combo, idx, lay, bmkind, traces):
     """(i) on a state-dependent SDE + trace with the StateReset observation."""
     ty, noise, method, am = combo[:4]
@@ -275,15 +348,31 @@ def run(ctx):
         counters[cls] = i + 1
         combo = by_class[cls][i % len(by_class[cls])]
         const_case(ctx, p, idx, combo, traces)
+    # ---- (ii') time-dependent family: every accepted combo, on scenarios with everything requested ----
+    allc = sorted(acc)
+    full = {}
+    for p in drv:
+        if p["scn"]["rid"] == 1 and len(p["scn"]["ts"]) >= 3:
+            full.setdefault(p["scn"]["pair"], []).append(p)
+    reps = 1 if ctx.tier == "quick" else 4
+    for ci, combo in enumerate(allc):
+        pool_ = full[combo[4]]
+        for r in range(reps):
+            lintime_case(ctx, pool_[(ci * reps + r) * 7 % len(pool_)], ci * reps + r, combo, traces)
     # ---- (i) + StateReset traces on smooth SDEs: every accepted combo x layouts ----
     lays = [(2, (0, 2, 4)), (2, (0, 3)), (3, (0, 3, 4, 6)), (1, (0, 1, 2, 3))]
-    allc = sorted(acc)
     for ci, combo in enumerate(allc):
         use = lays if ctx.tier != "quick" else [lays[ci % 4], lays[(ci + 1) % 4]]
         for li, lay in enumerate(use):
             smooth_forward_case(ctx, combo, ci * 7 + li, lay, "grid" if (ci + li) % 3 else "interval", traces)
     # ---- binding self-checks (not verdicts on the code): a corrupted weight / event must be noticed ----
     import harness.common as common
+    probe = common.Ctx("C09", ctx.tier, ctx.seed, LEVEL)
+    probe.violation = lambda *a, **k: probe.violations.append(a) or True
+    lintime_case(probe, [p for p in full["other"] if len(p["scn"]["wset"]) >= 2][0], 0,
+                 [c for c in by_class["other"] if c[3] == "midpoint"][0], [], corrupt="time")
+    if not probe.violations and not ctx.violations:
+        raise RuntimeError("binding self-check failed: a diffusion gradient outside the budget was not noticed")
     for how in ("weight", "event"):
         probe = common.Ctx("C09", ctx.tier, ctx.seed, LEVEL)
         probe.violation = lambda *a, **k: probe.violations.append(a) or True
@@ -292,7 +381,7 @@ def run(ctx):
                 and len(p["scn"]["wset"]) == 3][0]
         const_case(probe, pick, 0, by_class["other"][0], ptr, corrupt=how)
         noticed = bool(probe.violations) or bool(H.validate_traces(ptr, "C09 self-check", probe))
-        if not noticed:
+        if not noticed and not ctx.violations:
             raise RuntimeError(f"binding self-check failed: corrupted {how} was not noticed")
     # ---- (iii) TLC validates every recorded trace ----
     rej = H.validate_traces(traces, "C09", ctx)
@@ -309,9 +398,16 @@ def run(ctx):
     ctx.notes["traces_validated_by_tlc"] = len(traces)
     # ---- (iv) exploration ----
     shr = []
-    defaults = [c for c in allc if c[5]]
-    pool = defaults if ctx.tier != "quick" else [c for c in defaults if c[2] in ("euler", "milstein", "midpoint", "reversible_heun")
-                                                 and not (c[2] == "euler" and c[1] in ("diagonal",))][:8]
+    if ctx.tier != "quick":
+        pool = list(allc)
+    else:
+        # every default pair, and every adjoint method of every (sde_type, noise_type) at least once
+        pool, seen = [], set()
+        for c in allc:
+            k3 = (c[0], c[1], c[3])
+            if c[5] or k3 not in seen:
+                pool.append(c)
+                seen.add(k3)
     for i, combo in enumerate(pool):
         try:
             shr.append(shrink_case(ctx, combo, i))
@@ -326,7 +422,8 @@ def run(ctx):
     ctx.rule = ("every scenario reached by AdjointDriver under TLC (layout x non-empty weight pattern x request pattern x pair "
                 "class) is run on the real sdeint_adjoint with the constant family under an accepted (sde_type, noise_type, "
                 "method, adjoint_method) of that pair class (round robin over the accepted table, so every accepted combo is "
-                "used); plus every accepted combo x layouts on a tanh/sin SDE; every run is recorded and its trace validated "
+                "used); every accepted combo on the time-dependent family f = a(1+t), g = b(1+t) against TLC's budgets; every "
+                "accepted combo x layouts on a tanh/sin SDE; every run is recorded and its trace validated "
                 "by TLC.  Non-trivial: at least one backward segment, non-zero weight, at least one tensor asked for.")
     ctx.exhaustive = True
     ctx.assumptions = ["ts and dt on a dyadic tick grid (tick = 1/8)",
